@@ -10,6 +10,8 @@ to the next directive is its text):
   @ensures  <id> [P1 P2 ..]       idem
   @safe [P1 P2 ..]                properties to which implicit obligations of this fn (panics, overflow,
                                   bounds, callee preconditions, loop invariants, asserts) are attributed
+  @predicates                     also emit every ensures clause as a named spec predicate cl_<fn>_<id>(vs_old, vs_new, <params>, res)
+                                  (old(self) -> vs_old, final(self) -> vs_new) in the same impl block, for use by callers' contracts and lemmas
   @decreases                      text = decreases expression of the function (spec/recursive)
   @loop <k>                       text = `invariant ..., decreases ...` placed at the head of loop k
   @foriter <k> <name>             bind the ghost iterator of `for` loop k:  for x in <name>: expr
@@ -52,6 +54,7 @@ class FnSpec:
     loops: dict = field(default_factory=dict)      # k -> text
     foriter: dict = field(default_factory=dict)    # k -> name
     proofs: list = field(default_factory=list)     # (mode, anchor, text)   mode: proof|ghost
+    predicates: bool = False
     src: str = ''
 
 
@@ -138,6 +141,8 @@ def _parse(text, fname, spec):
             elif kw == '@safe':
                 props, _ = _props(rest)
                 fn.safe = props
+            elif kw == '@predicates':
+                fn.predicates = True
             elif kw == '@decreases':
                 fn.decreases = txt
             elif kw == '@loop':
